@@ -183,6 +183,44 @@ def _seed_variants(prop=None):
     return out
 
 
+def _neutral_patch_variants(prop=None):
+    """Behaviour-preserving refactorings written by sub-agents (seeded-neutral/<id>/patch.diff): EVERY property's check must
+    stay silent on every one of them (a refactoring anchored in one property's code often touches another's)."""
+    out = []
+    sd = os.path.join(VERIF, "seeded-neutral")
+    from selftest.neutral_sweep import PROPS
+    for sid in sorted(os.listdir(sd)) if os.path.isdir(sd) else []:
+        pp = os.path.join(sd, sid, "patch.diff")
+        if not os.path.isfile(pp):
+            continue
+        for p_ in ([prop] if prop else PROPS):
+            out.append(dict(id=f"{sid}/{p_}", prop=p_, kind="neutral-patch", patch=pp))
+    return out
+
+
+def _run_neutral_patch(v):
+    from sa.load import REPO
+
+    def files(rel):
+        try:
+            return open(os.path.join(REPO, rel), encoding="utf-8").read()
+        except OSError:
+            return None
+    ov = apply_unified_diff(files, open(v["patch"], encoding="utf-8").read())
+    if ov is None:
+        return v["id"], "skipped", "patch does not apply to the current tree"
+    base, err0 = _violations(v["prop"], None)
+    if err0:
+        return v["id"], "error", "baseline: " + err0
+    got, err = _violations(v["prop"], ov)
+    if err:
+        return v["id"], "fail", f"behaviour-preserving refactoring made the checker fail: {err}"
+    new = sorted(got - base)
+    if new:
+        return v["id"], "fail", f"false alarm on a behaviour-preserving refactoring: {new[:2]}"
+    return v["id"], "ok", "silent"
+
+
 def _run_seed(v):
     from sa.load import REPO
 
@@ -248,6 +286,11 @@ def main():
         for r in ex.map(_run_seed, seeds):
             results.append(r)
     vs = vs + seeds
+    npv = _neutral_patch_variants(a.prop)
+    with ProcessPoolExecutor(max_workers=a.jobs) as ex:
+        for r in ex.map(_run_neutral_patch, npv):
+            results.append(r)
+    vs = vs + npv
     bad = 0
     per_prop = {}
     for v, (vid, status, msg) in zip(vs, results):
